@@ -189,7 +189,13 @@ func (fc *funcContext) translateStmt(stmt ast.Stmt, label *types.Label) {
 
 	case *ast.RangeStmt:
 		refVar := fc.newLocalVariable("_ref")
-		fc.Printf("%s = %s;", refVar, fc.translateExpr(s.X))
+		refExpr := fc.translateExpr(s.X)
+		if _, isArray := fc.typeOf(s.X).Underlying().(*types.Array); isArray && !isBlank(s.Value) {
+			// The iteration values come from a copy of the array made before the
+			// first iteration: the loop body may assign to the array.
+			refExpr = fc.translateImplicitConversionWithCloning(s.X, fc.typeOf(s.X))
+		}
+		fc.Printf("%s = %s;", refVar, refExpr)
 
 		switch t := fc.typeOf(s.X).Underlying().(type) {
 		case *types.Basic:
